@@ -299,7 +299,7 @@ func init() {
 		ID:    "C12",
 		Level: "fault_enumeration",
 		Rule: "(i) per configuration, every protocol line of the recorded transcript x every field (message type, integer, both halves of len/step acks, raw payload, decoded string, every JSON member present or absent) x boundary values " +
-			"{-2^63,-1,0,1,v+-1,2^31,2^62,2^63-1,overflow,non-numeric,empty,10 kB,wrong JSON type,truncated JSON,invalid base64,invalid zlib,truncated zstd}; (ii) every token string up to length 4 over the scanner alphabets for 9 scanners; (iii) every member of an archive entry header x JSON boundary values (or absent) x 3 payloads x cuts around the header end, on the real archive writer; " +
+			"{-2^63,-1,0,1,v+-1,2^31,2^62,2^63-1,overflow,non-numeric,empty,10 kB,wrong JSON type,truncated JSON,invalid base64,invalid zlib,truncated zstd}; (ii) every token string up to length 4 over the scanner alphabets for 10 scanners (among them the line reader itself); (iii) every member of an archive entry header x JSON boundary values (or absent) x 3 payloads x cuts around the header end, on the real archive writer; " +
 			"non-trivial = the modified transfer did not simply succeed",
 		Assumptions: []string{"allocation attributable to a run = runtime.MemStats.TotalAlloc delta, limit 64 MiB + 8 x bytes on the wire; ulimit -v on the worker is the hard backstop and a dead worker is a violation",
 			"'session usable' is probed after the transfer: a server text must reach the terminal and typed input must reach the server"},
